@@ -1,3 +1,86 @@
-"""Kani harness runner (loop-free / fixed-width complete proofs over the real files).  Filled in with the C09/C20 units."""
+"""Kani harness runner: loop-free / fixed-width complete proofs over the REAL source files of /repo.
+
+A harness spec (props.py):  {'name': 'myers_step_u8', 'crate': 'myers', 'harness': 'myers_step_u8', 'timeout': 600,
+                            'obligation': 'Myers::<u8>::_step == DP column recurrence'}
+The crate is (re)generated under build/kani/<crate>/ from kani/<crate>/ + the current tree on every run.
+"""
+import os
+import re
+import shutil
+import subprocess
+import time
+
+ROOT = os.path.dirname(os.path.dirname(os.path.abspath(__file__)))
+
+
+def _prepare(crate, repo, build, tag):
+    src_t = os.path.join(ROOT, 'kani', crate)
+    dst = os.path.join(build, 'kani', crate + '-' + tag)
+    os.makedirs(os.path.join(dst, 'src'), exist_ok=True)
+    shutil.copy(os.path.join(src_t, 'Cargo.toml'), os.path.join(dst, 'Cargo.toml'))
+    lock = os.path.join(repo, 'Cargo.lock')
+    if os.path.exists(lock):
+        shutil.copy(lock, os.path.join(dst, 'Cargo.lock'))
+    lib = open(os.path.join(src_t, 'lib.rs')).read().replace('__REPO__', repo)
+    open(os.path.join(dst, 'src', 'lib.rs'), 'w').write(lib)
+    if crate == 'myers':
+        d = os.path.join(dst, 'src', 'pattern_matching', 'myers')
+        if os.path.exists(d):
+            shutil.rmtree(d)
+        shutil.copytree(os.path.join(repo, 'src', 'pattern_matching', 'myers'), d)
+        # mod.rs of pattern_matching is not copied: lib.rs declares `pub mod myers;`
+        simple = os.path.join(d, 'simple.rs')
+        text = open(simple).read()
+        text += '\n' + open(os.path.join(src_t, 'harness.rs')).read()
+        open(simple, 'w').write(text)
+    return dst
+
+
+_prep_lock = {}
+
+
 def run_harness(h, repo, build):
-    return {'harness': h.get('name', '?'), 'status': 'undecided', 'reason': 'kani runner not implemented', 'checks': 0, 'checks_ok': 0}
+    t0 = time.time()
+    res = {'harness': h['name'], 'status': 'undecided', 'reason': '', 'checks': 0, 'checks_ok': 0, 'failed': [], 'backend': 'Kani 0.68 / CBMC 6.11',
+           'obligation': h.get('obligation', ''), 'bounded': False}
+    try:
+        dst = _prepare(h['crate'], repo, build, h['harness'])
+    except Exception as e:
+        res['reason'] = 'TOOL: cannot prepare harness crate: %s' % e
+        return res
+    cmd = ['cargo', 'kani', '--harness', h['harness'], '--target-dir', os.path.join(build, 'kani-target-' + h['crate'] + '-' + h['harness'])] + h.get('args', [])
+    res['cmd'] = 'cd %s && CARGO_NET_OFFLINE=true %s' % (dst, ' '.join(cmd))
+    env = dict(os.environ)
+    env['CARGO_NET_OFFLINE'] = 'true'
+    try:
+        p = subprocess.run(cmd, cwd=dst, capture_output=True, text=True, timeout=h.get('timeout', 900), env=env)
+    except subprocess.TimeoutExpired:
+        res['reason'] = 'BUDGET: kani timeout %ss' % h.get('timeout', 900)
+        res['wall_s'] = round(time.time() - t0, 1)
+        return res
+    out = p.stdout + '\n' + p.stderr
+    res['wall_s'] = round(time.time() - t0, 1)
+    res['output'] = out[-8000:]
+    m = re.search(r'\*\* (\d+) of (\d+) failed', out)
+    if m:
+        res['checks'] = int(m.group(2))
+        res['checks_ok'] = int(m.group(2)) - int(m.group(1))
+    if 'VERIFICATION:- SUCCESSFUL' in out and m and int(m.group(1)) == 0 and int(m.group(2)) > 0:
+        res['status'] = 'discharged'
+        return res
+    if 'VERIFICATION:- FAILED' in out:
+        # failed checks
+        fails = re.findall(r'Check \d+: ([^\n]+)\n\s+- Status: FAILURE\n\s+- Description: "([^"]*)"\n\s+- Location: ([^\n]+)', out)
+        unwinding = [f for f in fails if 'unwinding assertion' in f[1]]
+        real = [f for f in fails if 'unwinding assertion' not in f[1]]
+        if real:
+            res['status'] = 'failed'
+            for (cid, desc, loc) in real[:10]:
+                res['failed'].append({'unit': 'kani/' + h['crate'], 'function': h['harness'], 'item': loc.strip(), 'kind': 'kani check failed',
+                                      'clause': desc, 'detail': cid, 'line': 0})
+            return res
+        if unwinding:
+            res['reason'] = 'BUDGET: unwinding assertion failed (a loop bound of the harness no longer covers the code)'
+            return res
+    res['reason'] = 'TOOL: kani did not report a verdict (exit %s): %s' % (p.returncode, out[-700:])
+    return res
